@@ -348,22 +348,6 @@ def r18_3(ctx):
         ok = len(wires) == 1 and isinstance(wires[0], AList) and wires[0].items == [0x90, 7, 64]
         ctx.require(ok, 'R18.1', 'send.whole-message', ctx.where(sp.methods['_send']), f'send writes {wires}',
                     construct=f'{sp.qname}._send::whole-message')
-    # attributes assigned from socket/makefile in __init__ are the ones closed
-    init = sp.methods.get('__init__')
-    acquired = set()
-    for t, st in astq.stores_in(init.node):
-        if isinstance(st, ast.Assign) and isinstance(t, ast.Attribute) and unparse(t.value) == 'self':
-            v = unparse(st.value)
-            if 'socket.socket(' in v or '.makefile(' in v or v == 'conn':
-                acquired.add(t.attr)
-    closed_attrs = set()
-    for c in astq.calls(cl.node):
-        if isinstance(c.func, ast.Attribute) and c.func.attr == 'close':
-            closed_attrs.add(unparse(c.func.value))
-    txt = unparse(cl.node)
-    missing = [a for a in sorted(acquired) if f'self.{a}' not in txt]
-    ctx.require(not missing, 'R18.3', 'close.pairs-with-init', ctx.where(cl), f'acquired in __init__ but never closed: {missing}',
-                construct=f'{cl.qname}::pairing')
     for q in ai.inlined:
         ctx.functions.add(q)
 
@@ -498,4 +482,11 @@ def r18_5(ctx):
     ctx.floor('R18.5', n, 4)
 
 
-RULES = [('R18.8', r18_decode), ('R18.7', r18_autoreset_eof), ('R18.6', r18_live), ('R18.1', r18_1), ('R18.3', r18_3), ('R18.4', r18_4), ('R18.5', r18_5)]
+def r18_unbounded(ctx):
+    """Exactly the messages that arrived completely - however many are pending when the receiver gets round to them: the
+    queue a socket port fills is the parser's deque, which must not be bounded (shared with C10 R10.11)."""
+    from . import parsershape
+    parsershape.check_parser_init(ctx, 'R18.9')
+
+
+RULES = [('R18.9', r18_unbounded), ('R18.8', r18_decode), ('R18.7', r18_autoreset_eof), ('R18.6', r18_live), ('R18.1', r18_1), ('R18.3', r18_3), ('R18.4', r18_4), ('R18.5', r18_5)]
